@@ -58,11 +58,15 @@ impl OperationTransformVisitor<'_> {
             return;
         }
 
+        // count only expressions that have actually been wrapped by a hook call (not every inspected
+        // operation of an already modified file, and not the untagged optional chain unfolding)
+        let instrumented = status == Status::Modified && tag.is_some();
+
         if status != Status::NotModified {
             self.transform_status.status = status;
         }
 
-        if self.transform_status.status == Status::Modified {
+        if instrumented {
             self.transform_status.telemetry.inc(tag);
         }
     }
